@@ -122,6 +122,12 @@ def execute(ops, paths, chk=None, inp=None):
             elif k == "getm":
                 c = db(op[1]).getm(names=None if op[2] is None else [op[2]], store=op[3], fullkey=True)
                 keep.extend(c.values())
+                if chk is not None and op[3]:
+                    notsame = [kk for kk, v in c.items() if db(op[1]).register.get(kk) is not v]
+                    if notsame:
+                        chk.fail("with caching enabled later retrievals return the very same object (every series returned by a "
+                                 "store-on retrieval is the cached one)", dict(inp, op=list(map(str, op))), "cached", notsame,
+                                 clause="store-true")
                 out = "series " + ",".join("%s=o%d" % (hx(kk), ids.setdefault(id(v), len(ids))) for kk, v in c.items())
             elif k == "geti":
                 c = db(op[1]).getm(ind=op[2], store=op[3], fullkey=True)
@@ -147,7 +153,8 @@ def execute(ops, paths, chk=None, inp=None):
 
 def snapshot(db):
     return (list(db.register_keys), sorted(db.register.keys()), sorted((k, str(v)) for k, v in db.register_parent.items()),
-            sorted((k, str(v)) for k, v in db.register_indices.items()), sorted((k, id(v)) for k, v in db.register.items()))
+            sorted((k, str(v)) for k, v in db.register_indices.items()),
+            sorted((k, id(v), None if v is None else (v.name, v.parent, v.x.tobytes())) for k, v in db.register.items()))
 
 
 def run(chk):
